@@ -77,13 +77,29 @@ func c03GenCfg(tier string, seed int64, idx int) (sim.GenCfg, int64) {
 	case 3:
 		g.Profile = gen.Profile{Obj: 3, Arr: 1, DeleteBias: 40, MaxDepth: 3, NewContainers: 30}
 	}
+	if idx%5 == 4 {
+		// one writer, readers that sync (and collect) at their own pace: the writer keeps
+		// tombstones its readers have purged already and goes on editing next to them
+		// (insertions, moves before / to the front). Nothing is concurrent here, so the
+		// fence of F-RGA-PURGE is not needed and is off (see run).
+		g.SingleWriter = true
+		g.Offline = false
+		g.DetachPct = 0
+		g.EditPct = 35
+		if rng.Intn(3) > 0 {
+			g.Profile = gen.Profile{Arr: 1, DeleteBias: 45, MaxDepth: 2, NewContainers: 5}
+		}
+	}
 	snap := []int64{0, 0, 3, 7}[rng.Intn(4)]
 	return g, snap
 }
 
 func (w *c03Worker) run(res *runner.CaseResult, idx int, replay *sim.History, snap int64, g sim.GenCfg) {
 	var vet Vetoed
-	g.Guard = makeGuard(Guards{ArrSetMoved: true, InsertBeforeTombstone: true}, &vet)
+	g.Guard = makeGuard(Guards{ArrSetMoved: true, InsertBeforeTombstone: !g.SingleWriter}, &vet)
+	if g.SingleWriter {
+		res.AddStat("single_writer_histories", 1)
+	}
 	defer func() {
 		res.AddStat("guard_vetoes_arr_set_moved", vet.ArrSetMoved)
 		res.AddStat("guard_vetoes_insert_before_tombstone", vet.InsertBeforeTombstone)
@@ -104,7 +120,7 @@ func (w *c03Worker) run(res *runner.CaseResult, idx int, replay *sim.History, sn
 	editors, applied := historyStats(res, t.A, t.H)
 	res.AddStat("purges_observed", t.Purges)
 	res.AddStat("snapshot_pulls", int64(t.ObsA.snapshots))
-	res.Nontrivial = editors >= 2 && applied >= 4 && t.Purges > 0
+	res.Nontrivial = (editors >= 2 || g.SingleWriter) && applied >= 4 && t.Purges > 0
 	if len(t.B.Fail) > 0 {
 		// the GC-off twin is not clean: not GC's fault (C01/C02 own it)
 		res.AddStat("twin_unclean", 1)
